@@ -75,7 +75,8 @@ PARTIAL = None
 
 TYPES = ["websocket.accept", "websocket.send", "websocket.close", "websocket.connect",
          "websocket.receive", "websocket.disconnect", "websocket.bogus", "http.response.start",
-         "websocket.http.response.start", "http.response.body", "websocket", "http", "lifespan"]
+         "websocket.http.response.start", "http.response.body", "websocket", "http", "lifespan",
+         "websocket.http.response.body"]
 RANK = {WebSocketState.CONNECTING: 0, WebSocketState.CONNECTED: 1, WebSocketState.DISCONNECTED: 2}
 
 
@@ -180,7 +181,12 @@ async def scenario(ops, script):
         suffix = ".text" if "text" in msg else ".bytes" if "bytes" in msg else ""
         fwd.append("%s%s@%d" % (msg["type"], suffix, RANK[ws.application_state]))
 
-    ws = box["ws"] = WebSocket({"type": "websocket"}, receive, send)
+    scope = {"type": "websocket"}
+    if (len(ops) + len(script)) % 2 == 1:
+        # every other scenario: a server that advertises the denial-response extension (what the wrapper may
+        # forward does not depend on it: denial events are the business of WebsocketDenialResponse)
+        scope["extensions"] = {"websocket.http.response": {}}
+    ws = box["ws"] = WebSocket(scope, receive, send)
     recs = []
     for c in ops:
         vals = []
@@ -483,7 +489,7 @@ def small_scripts():
     return out
 
 
-FULL = [0, 1, 2, 3, 4, 5, 6, 12, 21, 30, 31, 32, 36]
+FULL = [0, 1, 2, 3, 4, 5, 6, 12, 21, 30, 31, 32, 36, 38, 43]
 REDUCED = [0, 1, 2, 4, 6, 12, 30, 31, 32]
 WELL = [[0, 101, 202, 300], [0, 101, 300, 102], [0, 300], [0, 201, 102], [0], [0, 101, 102, 303]]
 
@@ -526,7 +532,7 @@ def cases(rng, tier):
             elif r < 0.85:
                 ops.append(rng.choice([10, 20]) + rng.randrange(0, 6))
             else:
-                ops.append(30 + rng.choice([0, 1, 1, 2, 3, 4, 5, 6, 7, 8, 9]))
+                ops.append(30 + rng.choice([0, 1, 1, 2, 3, 4, 5, 6, 7, 8, 8, 9, 13, 13]))
         kind = rng.random()
         k = rng.randrange(0, 30)
         frames = [rng.choice([100, 200]) + rng.randrange(0, 100) for _ in range(k)]
